@@ -1111,34 +1111,6 @@ Qed.
 
 (* ================================================================= [[name]]: B's own names *)
 
-Definition is_ext_coll (c : coll) : bool :=
-  match c with CExtModules | CExtTypes | CExtProcedures | CExtInterfaces => true | _ => false end.
-
-Lemma find_first_ext_none tops n l :
-  ext_named tops n = false -> incl l (flat_map objs_of tops) ->
-  find_first n (map IExt l) = Ok None.
-Proof.
-  unfold ext_named. intros H I.
-  induction l as [|o l IH]; [reflexivity|].
-  assert (Ho : In o (flat_map objs_of tops)) by (apply I; now left).
-  assert (Il : incl l (flat_map objs_of tops)) by (intros x Hx; apply I; now right).
-  assert (Q : match x_name o with JStr x => str_eqb (lower n) (lower x) | _ => true end = false).
-  { destruct (match x_name o with JStr x => str_eqb (lower n) (lower x) | _ => true end) eqn:E; [|reflexivity].
-    rewrite <- H. symmetry. apply existsb_exists. exists o. auto. }
-  simpl. destruct o as [c nm u a| | | |]; simpl in Q; try discriminate.
-  destruct nm; try discriminate. rewrite Q. now apply IH.
-Qed.
-
-Lemma ext_list_incl tops pl : incl (ext_list tops pl) (flat_map objs_of tops).
-Proof. unfold ext_list. intros x H. now apply filter_In in H as [H _]. Qed.
-
-Lemma coll_items_ext B tops c n :
-  is_ext_coll c = true -> ext_named tops n = false -> find_first n (coll_items B tops c) = Ok None.
-Proof.
-  intros E H. destruct c; try discriminate; simpl;
-    (apply (find_first_ext_none tops); [assumption|apply ext_list_incl]).
-Qed.
-
 Lemma coll_items_local B tops c :
   is_ext_coll c = false -> coll_items B tops c = number_from c 0 (local_names B c).
 Proof. destruct c; simpl; intros E; try discriminate; reflexivity. Qed.
@@ -1156,54 +1128,45 @@ Proof.
   rewrite app_nil_r in F. exact F.
 Qed.
 
-Lemma find_colls_local B tops n cs :
-  ext_named tops n = false ->
-  (exists c, In c cs /\ is_ext_coll c = false /\ lower_in n (local_names B c) = true) ->
-  exists c j, find_colls B tops n cs = Ok (Some (HLocal c j)).
+(* B's own collections are walked first; nothing imported is looked at before one of them has
+   answered *)
+Lemma find_colls_local_prefix B tops n L E :
+  Forall (fun c => is_ext_coll c = false) L ->
+  (exists c, In c L /\ lower_in n (local_names B c) = true) ->
+  exists c j, find_colls B tops n (L ++ E) = Ok (Some (HLocal c j)).
 Proof.
-  intros H. induction cs as [|c cs IH]; intros (w & Hw & Lw & Nw); [destruct Hw|].
-  simpl. destruct (is_ext_coll c) eqn:E.
-  - rewrite coll_items_ext by assumption. simpl. apply IH.
+  induction L as [|c L IH]; intros F (w & Hw & Nw); [destruct Hw|].
+  inversion F as [|? ? Fc FL]; subst. simpl.
+  rewrite coll_items_local by assumption.
+  destruct (lower_in n (local_names B c)) eqn:Lc.
+  - destruct (find_first_number_hit n c _ Lc) as (j & ->). simpl. eauto.
+  - rewrite find_first_number_miss by assumption. simpl. apply IH; [assumption|].
     destruct Hw as [->|Hw]; [congruence|]. exists w. auto.
-  - rewrite coll_items_local by assumption.
-    destruct (lower_in n (local_names B c)) eqn:L.
-    + destruct (find_first_number_hit n c _ L) as (j & ->). simpl. eauto.
-    + rewrite find_first_number_miss by assumption. simpl. apply IH.
-      destruct Hw as [->|Hw]; [congruence|]. exists w. auto.
 Qed.
 
-(* a name only B defines resolves to B's entity *)
-Theorem find_local_when_no_ext B tops n child :
-  ext_named tops n = false -> defined_locally B n = true ->
+Lemma find_order_shape :
+  FIND_ORDER = ALL_LOCAL ++ [CExtModules; CExtTypes; CExtProcedures; CExtInterfaces].
+Proof. reflexivity. Qed.
+
+(* a name B defines resolves to B's entity, whatever the external projects hold *)
+Theorem find_local_first B tops n child :
+  defined_locally B n = true ->
   exists h, project_find B tops n None child = Ok (Some h) /\ is_local h = true.
 Proof.
-  intros H D. unfold defined_locally in D. apply existsb_exists in D as (w & Hw & Nw).
-  destruct (find_colls_local B tops n (map snd LINK_TYPES) H) as (c & j & F).
-  { exists w. split; [|split; [|exact Nw]].
-    - unfold ALL_LOCAL in Hw. simpl in Hw.
-      repeat (destruct Hw as [<-|Hw]; [simpl; tauto|]). destruct Hw.
-    - unfold ALL_LOCAL in Hw. simpl in Hw.
-      repeat (destruct Hw as [<-|Hw]; [reflexivity|]). destruct Hw. }
-  unfold project_find. rewrite F. simpl.
-  destruct child as [[cn ce]|]; eexists; split; reflexivity.
+  intros D. unfold defined_locally in D. apply existsb_exists in D as (w & Hw & Nw).
+  unfold project_find. rewrite find_order_shape.
+  destruct (find_colls_local_prefix B tops n ALL_LOCAL
+              [CExtModules; CExtTypes; CExtProcedures; CExtInterfaces]) as (c & j & F).
+  { repeat constructor. }
+  { exists w. auto. }
+  rewrite F. simpl. destruct child as [[cn ce]|]; eexists; split; reflexivity.
 Qed.
 
-(* B's own module or submodule always wins (they are searched before anything imported) *)
-Theorem find_local_module_first B tops n child :
-  lower_in n (local_names B CModules) = true \/ lower_in n (local_names B CSubmodules) = true ->
-  exists h, project_find B tops n None child = Ok (Some h) /\ is_local h = true.
+Theorem find_local_first_ok B tops n child :
+  local_first_ok B n (project_find B tops n None child) = true.
 Proof.
-  intros H. unfold project_find.
-  assert (F : exists c j, find_colls B tops n (map snd LINK_TYPES) = Ok (Some (HLocal c j))).
-  { change (map snd LINK_TYPES) with (CModules :: CSubmodules :: skipn 2 (map snd LINK_TYPES)).
-    cbn [find_colls coll_items].
-    destruct (lower_in n (local_names B CModules)) eqn:L1.
-    - destruct (find_first_number_hit n CModules _ L1) as (j & ->). simpl. eauto.
-    - rewrite find_first_number_miss by assumption. cbn [bind].
-      destruct H as [H|H]; [discriminate|].
-      destruct (find_first_number_hit n CSubmodules _ H) as (j & ->). simpl. eauto. }
-  destruct F as (c & j & ->). simpl.
-  destruct child as [[cn ce]|]; eexists; split; reflexivity.
+  unfold local_first_ok. destruct (defined_locally B n) eqn:D; [|reflexivity].
+  destruct (find_local_first B tops n child D) as (h & -> & L). exact L.
 Qed.
 
 (* ================================================================= load errors *)
@@ -1434,10 +1397,12 @@ Proof. vm_compute. reflexivity. Qed.
 Definition B_shape : blocal := [(CTypes, [s "shape"])].
 Definition tops_shape : list xval :=
   [XO XModule (JStr (s "shape")) (JStr (s "/a/doc/module/shape.html")) (canon_attrs XModule [])].
-Lemma local_first_find_refuted :
+(* the former counterexample, now resolved to B's type *)
+Example local_first_find_regression :
   defined_locally B_shape (s "shape") = true /\
-  project_find B_shape tops_shape (s "shape") None None = Ok (Some (HExt (hd (XS []) tops_shape))).
-Proof. split; vm_compute; reflexivity. Qed.
+  project_find B_shape tops_shape (s "shape") None None = Ok (Some (HLocal CTypes 0)) /\
+  project_find [] tops_shape (s "shape") None None = Ok (Some (HExt (hd (XS []) tops_shape))).
+Proof. repeat split; vm_compute; reflexivity. Qed.
 
 (* descriptions of the wrong shape are contained (they used to end the run) *)
 Lemma load_shape_contained d :
@@ -1554,16 +1519,6 @@ Proof. intros. apply roundtrip; auto using ident_of_noslash. Qed.
 
 (* ================================================================= combined partial statements *)
 
-Lemma local_first_find_partial B tops n child :
-  (lower_in n (local_names B CModules) = true \/ lower_in n (local_names B CSubmodules) = true)
-  \/ (ext_named tops n = false /\ defined_locally B n = true) ->
-  exists h, project_find B tops n None child = Ok (Some h) /\ is_local h = true.
-Proof.
-  intros [H|[H1 H2]].
-  - now apply find_local_module_first.
-  - now apply find_local_when_no_ext.
-Qed.
-
 (* ================================================================= non-vacuity *)
 
 Lemma roundtrip_nonvacuous :
@@ -1626,8 +1581,6 @@ Qed.
 Example local_first_ex : lower_in (s "MA") [s "x"; s "ma"] = true.
 Proof. reflexivity. Qed.
 
-Example find_partial_ex :
-  ext_named tops_shape (s "other") = false /\
-  defined_locally [(CProcedures, [s "Other"])] (s "other") = true /\
-  lower_in (s "Shape") (local_names [(CSubmodules, [s "shape"])] CSubmodules) = true.
-Proof. repeat split; reflexivity. Qed.
+Example find_local_first_ex :
+  defined_locally [(CProcedures, [s "Other"])] (s "other") = true.
+Proof. reflexivity. Qed.
